@@ -1087,7 +1087,7 @@ func checkFan(f fan) ev.Outcome {
 
 func init() {
 	ev.Define("crossing_sign_oracle", ev.Options{
-		Rule: "quadruples: related/general tuples, 4 points exactly on one great circle, c,d next to the planes of the outward-tangent early exit at a or b (offset 0..±40·2^-54 or 1e-17..0.5 along AB, any angle around it, ±3 ulps; AB long/short/related; plus 9 stored (a,b,c) where the float tangent test is known to exceed its error bound), crossing by construction, forced sharing of 1-4 vertices and degenerate edges. Excluded (skipped): non-unit points, exactly antipodal a,b or c,d. Oracle = four exact orientations (integer determinant, independent SoS), MaybeCross iff bit-identical vertex shared, degenerate edge -> DoNotCross. Non-trivial = triageSign does not already put c,d strictly on one side of AB, or a vertex is shared.",
+		Rule:  "quadruples: related/general tuples, 4 points exactly on one great circle, c,d next to the planes of the outward-tangent early exit at a or b (offset 0..±40·2^-54 or 1e-17..0.5 along AB, any angle around it, ±3 ulps; AB long/short/related; plus 9 stored (a,b,c) where the float tangent test is known to exceed its error bound), crossing by construction, forced sharing of 1-4 vertices and degenerate edges. Excluded (skipped): non-unit points, exactly antipodal a,b or c,d. Oracle = four exact orientations (integer determinant, independent SoS), MaybeCross iff bit-identical vertex shared, degenerate edge -> DoNotCross. Non-trivial = triageSign does not already put c,d strictly on one side of AB, or a vertex is shared.",
 		Quick: 300000, Thorough: 12000000}, genQuad, checkCrossingSign)
 	ev.Define("crossing_sign_symmetry", ev.Options{
 		Rule:  "same quadruples; the 8 forms (reverse AB, reverse CD, swap edges) of CrossingSign are equal; EdgeOrVertexCrossing invariant under reversing either edge. Non-trivial as for crossing_sign_oracle.",
